@@ -49,7 +49,7 @@ def unit_rac(eng):
         ("x = e\n.link 1000 + s - x\nnop\ns: nop\nnop\ne: nop\n", 0o774), ("x = e\ny = s\n.link 1000 + 3*x - 3*y\nnop\ns: nop\nnop\ne: nop\n", 0o1014),
         ("x = e\ny = s + 2\n.link 2000 - x + y\nnop\ns: nop\nnop\ne: nop\n", 0o1776),
     ]
-    bad_progs = ["x = e\n.link 1000 + x + s\nnop\ns: nop\ne: nop\n", "x = e\n.link x\nnop\ne: nop\n", ".link a\na: nop\n", ".link 100\n.link 200\nnop\n", ".link s + 2\ns: nop\n", ".link 1000\n.blkb 10\n. = 1004\nnop\n"]
+    bad_progs = [".link 1000\nnop\n.link 1000\n", ".link 1000+e-.\nnop\n.link 1000+e-.\ne: nop\n", "x = e\n.link 1000 + x + s\nnop\ns: nop\ne: nop\n", "x = e\n.link x\nnop\ne: nop\n", ".link a\na: nop\n", ".link 100\n.link 200\nnop\n", ".link s + 2\ns: nop\n", ".link 1000\n.blkb 10\n. = 1004\nnop\n"]
     jobs = [{"kind": "asm", "sources": [p]} for p, _ in progs] + [{"kind": "asm", "sources": [p]} for p in bad_progs]
     res = driver.native(jobs, driver.tree_root())
     bad = []
@@ -77,6 +77,8 @@ def units(tier):
         for hw in (False, True):
             for lz in (False, True):
                 us.append(("set_link_address[%s,%s,%s]" % (settled, hw, lz), "unit_set_link_address", dict(settled=settled, had_where=hw, lazy=lz)))
+    for lz in (False, True):
+        us.append(("set_link_address[True,same-text,%s]" % lz, "unit_set_link_address", dict(settled=True, had_where="same-text", lazy=lz)))
     for n in (1, 2, 3):
         for kinds in itertools.product(("ready", "lazy"), repeat=n):
             for s in [None] + list(range(n)):
@@ -107,14 +109,18 @@ def replay(o, tree):
         return deferred_c.replay_poly_nested(o["cfg"], o.get("witness") or {}, tree)
     if (o.get("cfg") or {}).get("kind") == "poly-selfref":
         return deferred_c.replay_poly_selfref(o["cfg"], o.get("witness") or {}, tree)
+    if (o.get("cfg") or {}).get("kind") == "linkfiles":
+        from contracts import c02
+        return c02.replay(o, tree)
     if "late binding" in label:
         from contracts import c02
         return c02.replay(o, tree)
-    probes = [("nop\n", 0o1000), (".link 2000\nnop\n", 0o2000), (".link 100\n.link 200\nnop\n", None), (".link a\na: nop\n", None), (".link 1000\n.byte 1\n. = 1005\n.byte 2\n", 0o1000),
+    probes = [("nop\n", 0o1000), (".link 2000\nnop\n", 0o2000), (".link 100\n.link 200\nnop\n", None), (".link 1000\nnop\n.link 1000\n", None), (".link 1000+e-.\nnop\n.link 1000+e-.\ne: nop\n", None), (".link a\na: nop\n", None), (".link 1000\n.byte 1\n. = 1005\n.byte 2\n", 0o1000),
               (".link 1000\n.blkb 10\n. = 1004\nnop\n", None), (".link 200000\nnop\n", None), (".link -2\nnop\n", 0o177776)]
     jobs = [{"kind": "asm", "sources": [p]} for p, _ in probes]
     res = driver.native(jobs, tree)
     obs = [r.get("base") if r["status"] == "ok" else r["status"] for r in res]
     exp = [b if b is not None else "fail" for _, b in probes]
-    extra = bytes.fromhex(res[4]["code_hex"]) == b"\x01\0\0\0\0\x02" if res[4]["status"] == "ok" else False
+    k_skip = [i for i, (p_, _) in enumerate(probes) if ". = 1005" in p_][0]
+    extra = bytes.fromhex(res[k_skip]["code_hex"]) == b"\x01\0\0\0\0\x02" if res[k_skip]["status"] == "ok" else False
     return dict(jobs=jobs, expected=exp, observed=obs, skip_zero_filled=extra, reproduced=obs != exp or not extra)
